@@ -159,6 +159,22 @@ def evaluate(rows, model_ok, want):
             spec_reqs.append("spec\t%s\t%s" % (r["decl_sexp"], v))
             idx.append((ri, vi))
     out["nvalues"] = len(idx)
+    # a struct for which the generator wrote NO validator although the Spec has rules for it: every violating
+    # value is silently accepted (there is not even a Validate method)
+    nofile = [r for r in rows if not r.get("file") and not r.get("gen_exit") and r.get("values")]
+    if nofile:
+        polls = C.drive("specdrv", ["polls\t" + r["decl_sexp"] for r in nofile])
+        cand = [r for r, p in zip(nofile, polls) if p.isdigit() and int(p) > 0]
+        reqs2, owner = [], []
+        for r in cand:
+            for v in r["values"]:
+                reqs2.append("spec\t%s\t%s" % (r["decl_sexp"], v))
+                owner.append((r, v))
+        if reqs2:
+            for (r, v), a in zip(owner, C.drive("specdrv", reqs2)):
+                if a.startswith("report "):
+                    out["spec"].append((r, v, "no validator file generated: the value is never checked", a))
+                    break
     sem_ans = C.drive("modeldrv", sem_reqs) if model_ok and sem_reqs else [None] * len(sem_reqs)
     spec_ans = C.drive("specdrv", spec_reqs) if spec_reqs else []
     ctx_reqs, ctx_exp = [], []
@@ -259,7 +275,10 @@ def report(res, ev, broken, aspects, known_match=None):
     if known_match is None:
         def known_match(k, a, item):
             r = item if isinstance(item, dict) else item[0]
-            return k.get("match", {}).get("decl_sexp") == r["decl_sexp"]
+            if k.get("match", {}).get("decl_sexp") != r["decl_sexp"]:
+                return False
+            obs = k.get("match", {}).get("observed")      # the finding is THIS wrong behaviour, not any failure on the declaration
+            return obs is None or (not isinstance(item, dict) and any(obs in str(x) for x in item[1:]))
     # declarations of known findings deviate by definition: they are not evidence against the model either
     known_decls = set(k.get("match", {}).get("decl_sexp") for k in C.load_known().get("findings", []))
     for key in ("struct", "sem", "ctx_model"):
